@@ -9,7 +9,7 @@ import itertools
 from .. import core, tex
 
 TAB = {'---': '—', '--': '–', '``': '“', "''": '”', '~': '\xa0',
-       '\\,': ' ', '\\%': '%', '\\&': '&', '\\$': '$', '\\#': '#', '\\_': '_',
+       '\\,': '\u202f', '\\%': '%', '\\&': '&', '\\$': '$', '\\#': '#', '\\_': '_',
        '\\{': '{', '\\}': '}', '\\\\': ' ', '&': ' '}
 KEYS = sorted(TAB, key=lambda s: -len(s))
 
@@ -19,7 +19,7 @@ ATOMS = ['a', 'B', ' ', '\n', '.', ',', '-', "'", '`', '~', '\\,', '\\%', '\\&',
 PROSE = list('abcxyzQRS019.,;:!?()/=+*<>|@"\'') + ['ä', 'é', 'ß', 'ж', 'Ω', '中', '\U0001d538',
                                                    'é', '​']
 PROSE_WS = [' ', ' ', ' ', '\n', '\n', '  ', '\n\n', '\t', '\n \n', ' \n', '\x0b', '\x0c', '\x1c',
-            '\x85', ' ', '　', '\n\n\n', '\r\n', '\r']
+            '\x85', ' ', '\u3000', '\u2009', '\u2003', '\n\n\n', '\r\n', '\r']
 RAND = ATOMS + ['c', 'D', 'é', 'ж', '1', ';', ':', '!', '(', ')', '--', '---', '``', "''", '  ',
                 '\n\n', '\t', '"']
 
